@@ -108,7 +108,8 @@ class Box(AbstractSpace[Float[Array, " ..."], None]):
             sample,
         )
 
-        return sample
+        # Guard against overflow/rounding of the affine maps above for huge bounds.
+        return jnp.clip(sample, self.low, self.high)
 
     def contains(self, x: Any) -> Bool[Array, ""]:
         x = try_cast(x)
